@@ -39,10 +39,16 @@ def is_nan_bits(b):
     return (b >> 52) & 0x7FF == 0x7FF and (b & ((1 << 52) - 1)) != 0
 
 
+NZERO = 0x8000000000000000
+
+
 def key_of_bits(b):
-    """order key of the model: sign-magnitude bits -> monotone integer, +-0 -> 0"""
+    """the model's exact value token: sign-magnitude bits -> monotone integer (+0.0 -> 0), -0.0 -> nz
+    (injective on non-NaN values: the sign of zero stays observable in every compared reply)"""
     if is_nan_bits(b):
         return "nan"
+    if b == NZERO:
+        return "nz"
     if b == PINF:
         return "pinf"
     if b == NINF:
@@ -58,6 +64,42 @@ def hexbits(b):
 SCORES = [bits_of(x) for x in (0.0, -0.0, 1.0, -1.0, 2.0, 3.0, 1.5, -2.5, 0.1, 100.0, 1e300, -1e300,
                                5e-324, -5e-324, 1.7976931348623157e308, -1.7976931348623157e308)] + \
          [0x3FF0000000000001, 0x3FEFFFFFFFFFFFFF, 0x4000000000000001, PINF, NINF]
+# values that compare equal or are adjacent around zero / at the top of the range (re-scores between them)
+ZEROISH = [bits_of(x) for x in (0.0, -0.0, 0.0, -0.0, 5e-324, -5e-324, 1e-320, -1e-320)]
+EDGES = [bits_of(1.7976931348623157e308), 0x7FEFFFFFFFFFFFFE, PINF, bits_of(-1.7976931348623157e308), NINF, bits_of(0.0), bits_of(-0.0)]
+
+
+def score_class(b):
+    if is_nan_bits(b):
+        return "nan"
+    if b == 0:
+        return "+0"
+    if b == NZERO:
+        return "-0"
+    if b in (PINF, NINF):
+        return "inf"
+    e = (b >> 52) & 0x7FF
+    if e == 0:
+        return "denormal"
+    if e == 0x7FE and (b & ((1 << 52) - 1)) >= (1 << 52) - 2:
+        return "max-finite"
+    return "normal"
+
+
+def rescore_class(old_tok, new_bits):
+    """relation between the score a member holds and the one it is given (tokens of key_of_bits)"""
+    new_tok = key_of_bits(new_bits)
+    if old_tok is None:
+        return "new-member"
+    if old_tok == new_tok:
+        return "same-value"
+    z = {"0", "nz"}
+    if old_tok in z and new_tok in z:
+        return "equal-compare-other-value(+-0)"
+    if "nan" in (old_tok, new_tok) or old_tok in ("pinf", "ninf") or new_tok in ("pinf", "ninf"):
+        return "other"
+    a, b = (0 if old_tok == "nz" else int(old_tok)), (0 if new_tok == "nz" else int(new_tok))
+    return "adjacent" if abs(a - b) == 1 else "other"
 MEMBERS = [b"a", b"b", b"c", b"", b"ab", b"a\x00", b"\xff", b"b\r\n", b"B"]
 
 
@@ -113,6 +155,8 @@ def score_sort_key(k):
         return (2, 0)
     if k == "nan":
         return (3, 0)
+    if k == "nz":
+        return (1, 0)            # -0.0 and +0.0 compare equal: ordered by member
     return (1, int(k))
 
 
@@ -243,6 +287,7 @@ class C04:
         self.disagreements = []        # impl vs Code
         self.findings = load_findings()
         self.keyno = 0
+        self.fmt_cache = {}
         self.cfg()
 
     def cfg(self):
@@ -267,6 +312,27 @@ class C04:
         if a == "bad-op":
             raise InternalError("impl driver rejected: " + line)
         return a
+
+    def note_classes(self, layer, old_tok, new_bits):
+        """input-class distribution for the evidence: what kind of value, and how it relates to the stored one"""
+        self.rep.count("class.score.%s" % score_class(new_bits))
+        rc = rescore_class(old_tok, new_bits)
+        self.rep.count("class.rescore.%s" % rc)
+        self.rep.nontrivial((layer, "rescore", rc, score_class(new_bits)))
+
+    def fmt_score(self, bits):
+        """Rust's f64 Display (the handlers' `score.to_string()`), a parameter obtained from the real formatter"""
+        if bits not in self.fmt_cache:
+            self.fmt_cache[bits] = unhx(self.ask_impl("fmt " + hexbits(bits)))
+        return self.fmt_cache[bits]
+
+    def score_reply(self, text, where, out, op):
+        """a score as the server printed it -> exact value token; the text must be the canonical rendering of that value"""
+        bits = bits_of(float(text.decode()))
+        if not is_nan_bits(bits) and self.fmt_score(bits) != text:
+            out.append(("oracle", "score-text", {"op": list(op), "impl": text.decode("ascii", "replace"), "want": self.fmt_score(bits).decode(),
+                                                "where": where, "why": "score text is not the exact rendering of the stored value"}))
+        return bits
 
     def fresh_key(self):
         self.keyno += 1
@@ -300,6 +366,8 @@ class C04:
                 if name == "ins":
                     h = infer_height(pre, post, op[1])
                     b = self.ask_model("sl ins %d %s %s" % (h, op[1], key_of_bits(op[2])))
+                    if record:
+                        self.note_classes("sl", dict(pre[1]).get(op[1]), op[2])
                 else:
                     h = None
                     b = self.ask_model("sl rem %s" % op[1])
@@ -365,7 +433,9 @@ class C04:
 
     def gen_sl(self, r, n, nan_ok):
         ops, members, cnt = [], r.choice([MEMBERS[:3], MEMBERS[:5], MEMBERS]), 0
-        scores = r.choice([SCORES, SCORES[:6], [SCORES[2], SCORES[16], SCORES[17]]])
+        scores = r.choice([SCORES, SCORES[:6], [SCORES[2], SCORES[16], SCORES[17]], ZEROISH, ZEROISH, EDGES])
+        if scores is ZEROISH:
+            members = MEMBERS[:3]
         for _ in range(n):
             k = r.below(20)
             m = hx(r.choice(members))
@@ -428,6 +498,8 @@ class C04:
                 h = infer_height(pre, post, op[1]) if post else 0
                 b = self.ask_model("zs zadd %s %d %s %s" % (key, h, op[1], key_of_bits(op[2])))
                 nanflag = is_nan_bits(op[2])
+                if record:
+                    self.note_classes("zs", key_of_bits(shadow[op[1]]) if op[1] in shadow else None, op[2])
             elif name == "zincrby":
                 cur = shadow.get(op[1])
                 summ = bits_of(float_of(cur) + float_of(op[2])) if cur is not None else op[2]
@@ -436,9 +508,11 @@ class C04:
                 h = infer_height(pre, post, op[1]) if post else 0
                 b = self.ask_model("zs zincrby %s %d %s %s" % (key, h, op[1], key_of_bits(summ)))
                 nanflag = is_nan_bits(summ)
+                if record:
+                    self.note_classes("zs", key_of_bits(cur) if cur is not None else None, summ)
                 if a not in (None, "panic") and not a.startswith("err"):
-                    if not tainted and not nanflag and int(a, 16) != summ and not (float_of(int(a, 16)) == 0.0 == float_of(summ)):
-                        out.append(("oracle", "zincrby-sum", {"op": op, "impl": a, "want": hexbits(summ), "why": "ZINCRBY reply is not old + increment"}))
+                    if not tainted and not nanflag and int(a, 16) != summ:
+                        out.append(("oracle", "zincrby-sum", {"op": op, "impl": a, "want": hexbits(summ), "why": "ZINCRBY reply is not exactly old + increment (IEEE bits, sign of zero included)"}))
                     a = key_of_bits(int(a, 16))
             elif name == "zrem":
                 a = self.ask_impl("zs zrem %s %s" % (key, op[1]))
@@ -549,8 +623,13 @@ class C04:
 
     def gen_zs(self, r, n, nan_ok):
         members = r.choice([MEMBERS[:3], MEMBERS[:5], MEMBERS])
-        scores = r.choice([SCORES, SCORES[:6], [SCORES[2], SCORES[16], SCORES[17], SCORES[4]]])
+        scores = r.choice([SCORES, SCORES[:6], [SCORES[2], SCORES[16], SCORES[17], SCORES[4]], ZEROISH, ZEROISH, EDGES])
         incs = [bits_of(x) for x in (1.0, -1.0, 0.5, 0.0, -0.0, 1e300, -1e300, 5e-324)] + [PINF, NINF]
+        if scores is ZEROISH:
+            members = MEMBERS[:3]
+            incs = [bits_of(x) for x in (0.0, -0.0, 0.0, -0.0, 5e-324, -5e-324, 1e-320)]
+        elif scores is EDGES:
+            incs = [bits_of(x) for x in (0.0, -0.0, 1.7976931348623157e308, -1.7976931348623157e308, 1e292, 1.0)] + [PINF, NINF]
 
         def g(size, i):
             if i >= n:
@@ -594,11 +673,20 @@ class C04:
             raise Fail("read-back ZRANGE 0 -1 WITHSCORES answered %r" % (r,))
         xs = r[1]
         items = []
+        self.obs_index = {}
         for j in range(0, len(xs) - 1, 2):
-            items.append("%s:%s" % (hx(xs[j][1]), key_of_bits(bits_of(float(xs[j + 1][1].decode())))))
-        self.obs_index = {xs[j][1]: bits_of(float(xs[j + 1][1].decode())) for j in range(0, len(xs) - 1, 2)}
+            b = self.score_reply(xs[j + 1][1], "ZRANGE 0 -1 WITHSCORES", self.rb_out, ("readback",))
+            items.append("%s:%s" % (hx(xs[j][1]), key_of_bits(b)))
+            self.obs_index[xs[j][1]] = b
         card = c.cmd("ZCARD", key)
         ex = c.cmd("EXISTS", key)
+        # the key index, member by member (ZSCORE), in key order like the model's `I=`
+        idx = []
+        for m in sorted(set(xs[j][1] for j in range(0, len(xs) - 1, 2))):
+            z = c.cmd("ZSCORE", key, m)
+            if z[0] == "b":
+                idx.append("%s:%s" % (hx(m), key_of_bits(self.score_reply(z[1], "ZSCORE", self.rb_out, ("readback",)))))
+        self.obs_idx_text = ",".join(idx) or "."
         return ",".join(items) or ".", card[1] if card[0] == "i" else card, ex[1] if ex[0] == "i" else ex
 
     def run_tcp(self, server, ops, tag, record=True):
@@ -610,6 +698,10 @@ class C04:
         tainted = False
         shadow = {}
         trace = []
+        self.rb_out = out
+
+        def ents(xs, where, op):
+            return ",".join("%s:%s" % (hx(xs[j][1]), key_of_bits(self.score_reply(xs[j + 1][1], where, out, op))) for j in range(0, len(xs) - 1, 2)) or "."
         try:
             for op in ops:
                 op = tuple(op)
@@ -626,6 +718,13 @@ class C04:
                         sc = self.score_of_text(t)
                         toks.append("%s:%s" % ("bad" if sc is None else key_of_bits(sc), hx(m)))
                         nan = nan or (sc is not None and is_nan_bits(sc))
+                        if record:
+                            if sc is None:
+                                rep.count("class.text.refused-by-parser" + (".hex-form" if b"0x" in t.lower() else ""))
+                            else:
+                                self.note_classes("tcp", key_of_bits(shadow[m]) if m in shadow else None, sc)
+                                if t.lower().endswith(b"e400"):
+                                    rep.count("class.text.overflow-to-inf")
                     r = c.cmd(*args)
                     a = str(r[1]) if r[0] == "i" else ("err" if r[0] == "e" else repr(r))
                     b = self.ask_model("cmd zadd %s %s %s" % (kx, ",".join("0" for _ in pairs), ",".join(toks)))
@@ -635,12 +734,14 @@ class C04:
                     if inc is None:
                         raise InternalError("generator produced an unparsable increment")
                     zs_ = c.cmd("ZSCORE", key, m)          # the score the key index holds now (exact even after a NaN left two nodes for a member)
-                    cur = bits_of(float(zs_[1].decode())) if zs_[0] == "b" else None
+                    cur = self.score_reply(zs_[1], "ZSCORE", out, op) if zs_[0] == "b" else None
                     summ = bits_of(float_of(cur) + float_of(inc)) if cur is not None else inc
                     nan = is_nan_bits(summ)
                     r = c.cmd("ZINCRBY", key, t, m)
+                    if record:
+                        self.note_classes("tcp", key_of_bits(cur) if cur is not None else None, summ)
                     if r[0] == "b":
-                        got = bits_of(float(r[1].decode()))
+                        got = self.score_reply(r[1], "ZINCRBY reply", out, op)
                         a = key_of_bits(got)
                     else:
                         a = "err" if r[0] == "e" else repr(r)
@@ -651,16 +752,14 @@ class C04:
                     if r[0] == "na":
                         a = "."
                     elif r[0] == "a":
-                        xs = r[1]
-                        a = ",".join("%s:%s" % (hx(xs[j][1]), key_of_bits(bits_of(float(xs[j + 1][1].decode())))) for j in range(0, len(xs) - 1, 2)) or "."
+                        a = ents(r[1], cmdname, op)
                     else:
                         a = repr(r)
                     b = self.ask_model("cmd zpop %s %s %d" % (kx, op[1], 1 if op[2] is None else op[2]))
                 elif name == "ZRANGE":
                     r = c.cmd("ZREVRANGE" if op[3] else "ZRANGE", key, str(op[1]), str(op[2]), "WITHSCORES")
                     if r[0] == "a":
-                        xs = r[1]
-                        a = ",".join("%s:%s" % (hx(xs[j][1]), key_of_bits(bits_of(float(xs[j + 1][1].decode())))) for j in range(0, len(xs) - 1, 2)) or "."
+                        a = ents(r[1], "ZRANGE WITHSCORES", op)
                     else:
                         a = repr(r)
                     b = self.ask_model("zs zrange %s %d %d %d" % (kx, op[1], op[2], op[3]))
@@ -674,8 +773,9 @@ class C04:
                               "impl_set": l0, "impl_card": card, "impl_exists": ex, "code_set": code_l0, "spec_set": f["Z"]})
                 if a != f["C"]:
                     out.append(("corr", "tcp-" + name, {"op": op, "impl": a, "code": f["C"]}))
-                if (l0, card, ex) != (code_l0, code_n, int(f["K"] != "absent")):
-                    out.append(("corr", "tcp-state-" + name, {"op": op, "impl": [l0, card, ex], "code": [code_l0, code_n, int(f["K"] != "absent")]}))
+                code_ix = "." if f["K"] == "absent" else re.search(r" I=(\S+)", f["K"]).group(1)
+                if (l0, card, ex, self.obs_idx_text) != (code_l0, code_n, int(f["K"] != "absent"), code_ix):
+                    out.append(("corr", "tcp-state-" + name, {"op": op, "impl": [l0, card, ex, self.obs_idx_text], "code": [code_l0, code_n, int(f["K"] != "absent"), code_ix]}))
                 if not tainted:
                     spec_n = 0 if f["Z"] == "." else f["Z"].count(",") + 1
                     if name == "ZADD" and (a != f["S"] or l0 != f["Z"]):
@@ -694,6 +794,11 @@ class C04:
                     elif l0 != f["Z"] or card != spec_n or ex != int(spec_n > 0):
                         out.append(("oracle", "state", {"op": op, "impl": [l0, card, ex], "spec": [f["Z"], spec_n, int(spec_n > 0)], "layer": "tcp",
                                                         "why": "stored set / ZCARD / key existence differ from the prescribed ones"}))
+                    if not tainted and l0 == f["Z"]:
+                        want_ix = ",".join(sorted(f["Z"].split(","), key=lambda e: unhx(e.split(":")[0]))) if f["Z"] != "." else "."
+                        if self.obs_idx_text != want_ix:
+                            out.append(("oracle", "zscore", {"op": op, "impl": self.obs_idx_text, "spec": want_ix, "layer": "tcp",
+                                                             "why": "ZSCORE (key index) disagrees with the scores the set holds"}))
                 shadow = dict(self.obs_index)
                 if not tainted and l0 != f["Z"]:
                     members = [e.split(":")[0] for e in l0.split(",")] if l0 != "." else []
@@ -715,10 +820,17 @@ class C04:
         return out
 
     def gen_tcp(self, r, n, nan_ok):
-        good = [b"1", b"2", b"-1", b"0", b"-0", b"1.5", b"inf", b"-inf", b"+inf", b"Infinity", b"1e300", b"3", b"2.0000000000000004", b"1e400", b".5"]
-        bad = [b"nope", b"", b"1x", b"0x10", b" 1", b"1 ", b"--1", b"1,5"]
+        good = [b"1", b"2", b"-1", b"0", b"-0", b"1.5", b"inf", b"-inf", b"+inf", b"Infinity", b"1e300", b"3", b"2.0000000000000004", b"1e400", b".5",
+                b"+0", b"0.0", b"-0.0", b"1e-320", b"5e-324", b"-5e-324", b"1.7976931348623157e308", b"-1e400"]
+        bad = [b"nope", b"", b"1x", b"0x10", b" 1", b"1 ", b"--1", b"1,5", b"0x0", b"-0x0", b"0x1p3", b"0b1", b"1_0"]
         nans = [b"nan", b"NaN", b"-nan", b"+NAN"]
         members = r.choice([MEMBERS[:3], MEMBERS[:5], MEMBERS])
+        mode = r.below(4)
+        if mode == 0:        # values that compare equal or are adjacent around zero, re-scored over few members
+            good = [b"0", b"-0", b"+0", b"0.0", b"-0.0", b"-0e5", b"5e-324", b"-5e-324", b"1e-320", b"0", b"-0"]
+            members = MEMBERS[:3]
+        elif mode == 1:      # top of the range
+            good = [b"1.7976931348623157e308", b"1.7976931348623155e308", b"inf", b"1e400", b"-1.7976931348623157e308", b"-inf", b"-1e400", b"0", b"-0"]
         ops = []
         size = 0
         for _ in range(n):
@@ -733,7 +845,7 @@ class C04:
                 ops.append(("ZADD", pairs))
                 size += np_
             elif k < 12:
-                t = r.choice(good if nan_ok else [g for g in good if b"inf" not in g.lower() and g != b"1e400"])
+                t = r.choice(good if nan_ok else ([g for g in good if b"inf" not in g.lower() and b"e400" not in g] or [b"0"]))
                 ops.append(("ZINCRBY", hx(t), hx(r.choice(members))))
             elif k < 16:
                 ops.append(("ZPOP", r.choice(["min", "max"]), r.choice([None, None, 0, 1, 2, 3, 100])))
@@ -854,13 +966,15 @@ def minimise(c, server, layer, ops, kind):
 def main(tier, seed):
     rep = Report("C04", tier, seed)
     rep.rule = ("three layers from one PRNG: (sl) real SkipList<Vec<u8>,f64>, insert/remove/rank/range over colliding members and scores "
-                "(+-0, +-inf, adjacent floats, re-scoring across neighbours, NaN in every 7th history), level dump compared with the model after "
+                "(+0/-0 as distinct values, denormals, max finite, +-inf, adjacent floats, re-scoring to equal-comparing/adjacent/identical values, NaN in every 7th history), level dump compared with the model after "
                 "every operation, tower height inferred from the dump; (zs) real StorageEngine z-functions incl. all rank bounds in "
                 "{0,+-1,+-len,+-(len+-1),+-2,+-100,i64 min/max-ish}, reversed score bounds, pops, key removal; (tcp) real server: multi-pair ZADD "
-                "with unusable/NaN scores, ZINCRBY, ZPOPMIN/MAX with counts, ZRANGE/ZREVRANGE, read back by ZRANGE 0 -1 WITHSCORES/ZCARD/EXISTS. "
+                "with unusable/NaN/hex-form/overflowing score texts, ZINCRBY, ZPOPMIN/MAX with counts, ZRANGE/ZREVRANGE, read back by ZRANGE 0 -1 WITHSCORES/ZSCORE per member/ZCARD/EXISTS "
+                "(exact score texts); histogram keys class.score.* / class.rescore.* / class.text.* give the input-class distribution. "
                 "distinct = (layer, operation, deviation tag, reply class, size bucket, height bucket, tainted-by-NaN) tuples reached")
     rep.assumptions = [
-        "scores are compared through the order key of their IEEE bits (-0.0 and +0.0 identified); NaN payloads are not distinguished",
+        "scores are compared as exact values: the token of their IEEE bits is injective on non-NaN values (-0.0 is `nz`, +0.0 is `0`; they compare equal and "
+        "are ordered by member, theorem zeros_compare_equal); score texts must be the exact Display rendering of the value; NaN payloads are not distinguished",
         "IEEE addition for ZINCRBY and Rust's f64 FromStr/Display are parameters: the harness computes the sum and classifies score texts with the real parser",
         "tower heights are random in the code: inferred from the level dump (sl, zs) and proved unobservable (height_irrelevant) where no dump exists (tcp)",
         "memory safety of the raw-pointer code and the never-freeing Drop are outside this technique (DESIGN C04 N)",
